@@ -1,7 +1,7 @@
 """Shared machinery of the checks: build, proof obligations, evidence, reporting."""
 import hashlib, json, os, random, re, shutil, subprocess, sys, tempfile, time
 
-V = '/verif'
+V = os.path.dirname(os.path.dirname(os.path.realpath(__file__)))
 B = V + '/.build'
 REPO = os.environ.get('VERIF_REPO', '/repo')
 COQ = V + '/coq'
